@@ -166,6 +166,16 @@ def step(state, a):
             return {"kind": "value", "v": read_data(obj, kind)}
         elif name == "ReadTotal":
             return {"kind": "value", "tot": read_total(obj, kind, a["axis"])}
+        elif name == "Reload":
+            import os
+            from .fileio import tmpdir
+            path = os.path.join(tmpdir(), "c09-em-%d.yml" % os.getpid())
+            try:
+                obj.to_file(path)
+                state["obj"] = type(obj).from_file(path)
+            finally:
+                if os.path.exists(path):
+                    os.remove(path)
         elif name == "Copy":
             new = copy.deepcopy(obj)
             scramble(obj, kind)
@@ -218,7 +228,7 @@ def replay_walk(walk):
             viol(k, "Rejected: %s(%s) was accepted" % (a["name"], a.get("bad", "")), dict(action=a))
             return issues
         elif exp["kind"] != "reject" and got["kind"] == "reject":
-            viol(k, "valid %s raised" % a["name"], dict(action=a, exc=got.get("exc")))
+            viol(k, ("OwnClassRoundTrip: save + load raised" if a["name"] == "Reload" else "valid %s raised" % a["name"]), dict(action=a, exc=got.get("exc")))
             return issues
         # DisableEnableRestores: Disable(e) directly followed by Enable(e) restores the total exactly
         if a["name"] == "Enable" and before_disable and before_disable[0] == a["n"]:
